@@ -8,7 +8,7 @@ RULE = (
     "arguments; after histories every navigation attribute, iterator, Walker, Resolver and RenderTree result is compared; distinct = hash of the case tuple"
 )
 ASSUMPTIONS = ["only tree-node arguments (the statement excludes non-nodes)", "RecursionError cases are compared on class and final state only"]
-GATES = ["mon.C18.lockstep", "mon.C18.queries", "outcome.returned", "outcome.LoopError", "outcome.TreeError", "outcome.Injected", "histories"]
+GATES = ["mon.C18.lockstep", "mon.C18.queries", "outcome.returned", "outcome.LoopError", "outcome.TreeError", "outcome.Injected", "histories", "C18.rehoming_group_hook"]
 
 
 def plan(tier, seed, jobs):
